@@ -8,6 +8,10 @@ use crate::util::{Report, Tier, par_map};
 
 pub fn main(tier: Tier, seed: u64) -> i32 {
     let mut rep = Report::new("C15", tier, seed, "model_checking");
+    if let Err(e) = crate::srvx::selftest(seed) {
+        rep.machinery(e);
+        return rep.finish();
+    }
     // configurations: (n, leader, consts_from, outputs)
     let mut cfgs: Vec<(usize, usize, Vec<usize>, Vec<bool>)> = vec![
         (2, 0, vec![], vec![true, true]),
